@@ -139,11 +139,21 @@ def call_engine(inp, letters=AA, api=None, output_type="triplets", container="li
     raise KeyError(eng)
 
 
+def _position(x):
+    """a reported position as an int; anything that is not a whole number (an index label leaking through, ...) becomes -9,
+    which no expected triplet contains"""
+    try:
+        f = float(x)
+        return int(f) if f == int(f) else -9
+    except (TypeError, ValueError):
+        return -9
+
+
 def norm_triplets(ret, mode):
     """code result -> list of [i+1, j+1, d] with d an int (quarters in custom mode)."""
     out = []
     for t in ret:
-        i, j, d = int(t[0]), int(t[1]), t[2]
+        i, j, d = _position(t[0]), _position(t[1]), t[2]
         if mode == "custom":
             dd = to_quarters(float(d))
         else:
